@@ -25,6 +25,10 @@ def add(prop, *vs):
 
 # ---------------------------------------------------------------- C02
 add("C02",
+    V("century-choice-before-awareness-alignment", "C02", [(PARSER, "        if self._token_year and len(self._token_year[0]) == 2:\n            if self.now < dateobj:\n                if \"past\" in self.settings.PREFER_DATES_FROM:\n                    dateobj = dateobj.replace(year=dateobj.year - 100)\n            else:\n                if \"future\" in self.settings.PREFER_DATES_FROM:\n                    dateobj = dateobj.replace(year=dateobj.year + 100)\n\n", ""), (PARSER, "        # NOTE: If this assert fires, self.now needs to be made offset-aware in a similar\n", "        if self._token_year and len(self._token_year[0]) == 2:\n            if self.now < dateobj:\n                if \"past\" in self.settings.PREFER_DATES_FROM:\n                    dateobj = dateobj.replace(year=dateobj.year - 100)\n            else:\n                if \"future\" in self.settings.PREFER_DATES_FROM:\n                    dateobj = dateobj.replace(year=dateobj.year + 100)\n\n        # NOTE: If this assert fires, self.now needs to be made offset-aware in a similar\n")], "fire", "C02.R1",
+      note="seeded change C17-2: a timezone-carrying earlier hit makes the chained relative base aware; a later two-digit year is compared while still naive"),
+    V("awareness-alignment-dropped", "C02", [(PARSER, "        if self.now.tzinfo is not None and dateobj.tzinfo is None:\n            dateobj = pytz.utc.localize(dateobj)\n", "")], "fire", "C02.R1"),
+    V("twin-alignment-by-replace", "C02", [(PARSER, "            dateobj = pytz.utc.localize(dateobj)\n", "            dateobj = dateobj.replace(tzinfo=pytz.utc)\n")], "silent"),
     V("freshness-handler-narrowed", "C02", [(DATE, "        except (OverflowError, ValueError):\n            return None\n",
                                              "        except ValueError:\n            return None\n")], "fire", "C02.R1"),
     V("try_parser-handler-narrowed", "C02", [(DATE, "        except (OverflowError, ValueError):\n            self._settings.DATE_ORDER = _order",
@@ -108,6 +112,10 @@ add("C16",
 
 # ---------------------------------------------------------------- C17
 add("C17",
+    V("century-choice-before-awareness-alignment", "C17", [(PARSER, "        if self._token_year and len(self._token_year[0]) == 2:\n            if self.now < dateobj:\n                if \"past\" in self.settings.PREFER_DATES_FROM:\n                    dateobj = dateobj.replace(year=dateobj.year - 100)\n            else:\n                if \"future\" in self.settings.PREFER_DATES_FROM:\n                    dateobj = dateobj.replace(year=dateobj.year + 100)\n\n", ""), (PARSER, "        # NOTE: If this assert fires, self.now needs to be made offset-aware in a similar\n", "        if self._token_year and len(self._token_year[0]) == 2:\n            if self.now < dateobj:\n                if \"past\" in self.settings.PREFER_DATES_FROM:\n                    dateobj = dateobj.replace(year=dateobj.year - 100)\n            else:\n                if \"future\" in self.settings.PREFER_DATES_FROM:\n                    dateobj = dateobj.replace(year=dateobj.year + 100)\n\n        # NOTE: If this assert fires, self.now needs to be made offset-aware in a similar\n")], "fire", "C17.R2",
+      note="seeded change C17-2: a timezone-carrying earlier hit makes the chained relative base aware; a later two-digit year is compared while still naive"),
+    V("awareness-alignment-dropped", "C17", [(PARSER, "        if self.now.tzinfo is not None and dateobj.tzinfo is None:\n            dateobj = pytz.utc.localize(dateobj)\n", "")], "fire", "C17.R2"),
+    V("twin-alignment-by-replace", "C17", [(PARSER, "            dateobj = pytz.utc.localize(dateobj)\n", "            dateobj = dateobj.replace(tzinfo=pytz.utc)\n")], "silent"),
     V("lookahead-unbounded", "C17", [(LOCALE, "                    i < last_token_index\n                    and current_and_next_joined in dictionary", "                    current_and_next_joined in dictionary")], "fire", "C17.R1"),
     V("next-word-unbounded", "C17", [(LOCALE, 'next_word = simplified_tokens[i + 1] if i < last_token_index else ""', "next_word = simplified_tokens[i + 1]")], "fire", "C17.R1"),
     V("abbreviation-unescaped", "C17", [(LOCALE, '"(?<! " + re.escape(abbreviation[:-1]) + ")"', '"(?<! " + abbreviation[:-1] + ")"')], "fire", "C17.R2"),
@@ -127,6 +135,14 @@ add("C19",
     V("rebuild-not-written", "C19", [(TZP, "    with open(cache_path, mode=\"wb\") as file:\n        pickle.dump(\n            (current_hash, _tz_offsets, _search_regex, _search_regex_ignorecase),\n            file,\n            protocol=5,\n        )\n", "    return\n")], "fire", "C19.R4"),
     V("cache-not-packaged", "C19", [("MANIFEST.in", "include dateparser/data/dateparser_tz_cache.pkl\n", "")], "fire", "C19.R5"),
     V("handler-reraises", "C19", [(TZP, "        # missing, empty, truncated or otherwise unreadable cache: rebuild it\n        pass\n", "        if current_hash is None:\n            raise\n")], "fire", "C19.R1"),
+    V("write-exclusive-create", "C19", [(TZP, "    with open(cache_path, mode=\"wb\") as file:\n        pickle.dump(", "    with suppress(OSError), open(cache_path, mode=\"xb\") as file:\n        pickle.dump("),
+                                         (TZP, "import os\nimport pickle\n", "import os\nimport pickle\nfrom contextlib import suppress\n")], "fire", "C19.R7",
+      note="seeded change C19-2: an existing damaged file is never replaced"),
+    V("write-append", "C19", [(TZP, "    with open(cache_path, mode=\"wb\") as file:\n        pickle.dump(", "    with open(cache_path, \"ab\") as file:\n        pickle.dump(")], "fire", "C19.R7"),
+    V("write-to-other-path", "C19", [(TZP, "    with open(cache_path, mode=\"wb\") as file:\n        pickle.dump(", "    tmp_path = str(cache_path) + \".tmp\"\n    with open(tmp_path, mode=\"wb\") as file:\n        pickle.dump(")], "fire", "C19.R7"),
+    V("twin-atomic-replace", "C19", [(TZP, "    with open(cache_path, mode=\"wb\") as file:\n        pickle.dump(\n            (current_hash, _tz_offsets, _search_regex, _search_regex_ignorecase),\n            file,\n            protocol=5,\n        )\n",
+                                      "    tmp_path = str(cache_path) + \".tmp\"\n    with open(tmp_path, mode=\"wb\") as file:\n        pickle.dump(\n            (current_hash, _tz_offsets, _search_regex, _search_regex_ignorecase),\n            file,\n            protocol=5,\n        )\n    os.replace(tmp_path, cache_path)\n")], "silent"),
+    V("twin-path-open-method", "C19", [(TZP, "    with open(cache_path, mode=\"wb\") as file:\n        pickle.dump(", "    with cache_path.open(\"wb\") as file:\n        pickle.dump(")], "silent"),
     V("twin-broad-handler", "C19", [(TZP, "    except (\n        FileNotFoundError,\n        EOFError,\n        pickle.UnpicklingError,\n        AttributeError,\n        ImportError,\n        IndexError,\n        ValueError,\n        TypeError,\n    ):", "    except Exception:")], "silent"),
     )
 
@@ -278,6 +294,18 @@ add("C14",
 JAL = "dateparser/calendars/jalali_parser.py"
 CAL = "dateparser/calendars/__init__.py"
 add("C15",
+    V("day-bound-parsed-month-default-year", "C15", [(CAL, "        year, month, day = self.default_year, self.default_month, self.default_day\n        token_len = len(token)\n",
+                                                      "        year, month, day = self.default_year, self.default_month, self.default_day\n        if directive == \"%d\" and self.month:\n            month = self.month\n        token_len = len(token)\n")], "fire", "C15.R4",
+      note="seeded change C15-1: Esfand 30 of a leap year is rejected when the month precedes the day"),
+    V("default-month-not-longest", "C15", [("dateparser/calendars/hijri_parser.py", "    default_month = 1\n", "    default_month = 2\n")], "fire", "C15.R4"),
+    V("microsecond-dropped", "C15", [(CAL, "        c_params = params.copy()\n        c_params.update(dict(year=year, month=month, day=day))\n        return datetime(**c_params)\n",
+                                      "        return datetime(\n            year, month, day, params[\"hour\"], params[\"minute\"], params[\"second\"]\n        )\n")], "fire", "C15.R3",
+      note="seeded change C15-2"),
+    V("twin-datetime-built-positionally", "C15", [(CAL, "        c_params = params.copy()\n        c_params.update(dict(year=year, month=month, day=day))\n        return datetime(**c_params)\n",
+                                                   "        return datetime(\n            year, month, day, params[\"hour\"], params[\"minute\"], params[\"second\"], params[\"microsecond\"]\n        )\n")], "silent"),
+    V("twin-day-bound-on-parsed-pair", "C15", [(CAL, "        year, month, day = self.default_year, self.default_month, self.default_day\n        token_len = len(token)\n",
+                                                "        year, month, day = self.default_year, self.default_month, self.default_day\n        token_len = len(token)\n        by, bm = year, month\n"),
+                                               (CAL, "            and 0 < int(token) <= self.calendar_converter.month_length(year, month)\n", "            and 0 < int(token) <= self.calendar_converter.month_length(by, bm)\n")], "silent"),
     V("month-index-wrong", "C15", [(JAL, '("Mordad", (5, 31, ["امرداد", "مرداد"])),', '("Mordad", (6, 31, ["امرداد", "مرداد"])),')], "fire", "C15.R1"),
     V("months-reordered", "C15", [(JAL, '            ("Mehr", (7, 30, ["مهر"])),\n            ("Aban", (8, 30, ["آبان"])),', '            ("Aban", (8, 30, ["آبان"])),\n            ("Mehr", (7, 30, ["مهر"])),')], "fire", "C15.R1"),
     V("digit-table-wrong", "C15", [(JAL, '        "۸": 8,\n        "۹": 9,', '        "۸": 9,\n        "۹": 8,')], "fire", "C15.R1"),
@@ -296,6 +324,24 @@ add("C18",
     V("numerals-after-simplify", "C18", [(LOCALE, "        date_string = self._translate_numerals(date_string)\n        if settings.NORMALIZE:\n            date_string = normalize_unicode(date_string)\n        date_string = self._simplify(date_string, settings=settings)\n        dictionary = self._get_dictionary(settings)\n        date_string_tokens = dictionary.split(date_string, keep_formatting)",
                                           "        if settings.NORMALIZE:\n            date_string = normalize_unicode(date_string)\n        date_string = self._simplify(date_string, settings=settings)\n        date_string = self._translate_numerals(date_string)\n        dictionary = self._get_dictionary(settings)\n        date_string_tokens = dictionary.split(date_string, keep_formatting)")], "fire", "C18.R2"),
     V("isdigit-instead-of-isdecimal", "C18", [(LOCALE, "            if token.isdecimal():", "            if token.isdigit():")], "fire", "C18.R2"),
+    V("revert-fix-canonicalise-first", "C18", [(DATE, "def sanitize_date(date_string):\n    date_string = sanitize_spaces(date_string)\n", "def sanitize_date(date_string):\n")], "fire", "C18.R3"),
+    V("revert-fix-trim-needs-both-ends", "C18", [(DATE, 'RE_TRIM_SPACES = re.compile(r"^\\s*(\\S.*?)\\s*$")', 'RE_TRIM_SPACES = re.compile(r"^\\s+(\\S.*?)\\s+$")')], "fire", "C18.R3"),
+    V("nbsp-only-after-patterns", "C18", [(DATE, "def sanitize_date(date_string):\n    date_string = sanitize_spaces(date_string)\n", "def sanitize_date(date_string):\n    date_string = RE_SPACES.sub(\" \", date_string)\n")], "fire", "C18.R3",
+      note="collapsed but not trimmed before the spacing-sensitive patterns"),
+    V("twin-ascii-whitespace-after-nbsp-mapping", "C18", [(DATE, 'RE_SPACES = re.compile(r"\\s+")', 'RE_SPACES = re.compile(r"\\s+", flags=re.ASCII)')], "silent",
+      note="NBSP is mapped to a space first, so an ASCII-only \\s+ still covers the whole whitespace family of the property"),
+    V("ascii-whitespace-and-no-nbsp-mapping", "C18", [(DATE, 'RE_SPACES = re.compile(r"\\s+")', 'RE_SPACES = re.compile(r"\\s+", flags=re.ASCII)'),
+                                                        (DATE, "    date_string = RE_NBSP.sub(\" \", date_string)\n", "")], "fire", "C18.R3"),
+    V("no-final-strip", "C18", [(DATE, "    date_string = RE_SANITIZE_APOSTROPHE.sub(\"'\", date_string)\n    date_string = date_string.strip()\n", "    date_string = RE_SANITIZE_APOSTROPHE.sub(\"'\", date_string)\n")], "fire", "C18.R4"),
+    V("colon-trim-before-second-normalisation", "C18", [(DATE, "    date_string = sanitize_spaces(date_string)\n    date_string = RE_SANITIZE_PERIOD.sub(\"\", date_string)\n    date_string = RE_SANITIZE_ON.sub(r\"\\1\", date_string)\n    date_string = RE_TRIM_COLONS.sub(r\"\\1\", date_string)\n",
+                                                        "    date_string = RE_TRIM_COLONS.sub(r\"\\1\", date_string)\n    date_string = sanitize_spaces(date_string)\n    date_string = RE_SANITIZE_PERIOD.sub(\"\", date_string)\n    date_string = RE_SANITIZE_ON.sub(r\"\\1\", date_string)\n")], "fire", "C18.R4",
+      note="'2005 г.:' -> RUSSIAN leaves '2005  :'... the colon trim then runs on a string whose right end may carry the blank a replacement added"),
+    V("language-work-on-raw-string", "C18", [(DATE, "        date_string = sanitize_date(date_string)\n", "        raw_string = date_string\n        date_string = sanitize_date(date_string)\n"),
+                                               (DATE, "        for locale in self._get_applicable_locales(date_string):", "        for locale in self._get_applicable_locales(raw_string):")], "fire", "C18.R3"),
+    V("twin-russian-class-narrowed-after-normalisation", "C18", [(DATE, 'RE_SANITIZE_RUSSIAN = re.compile(r"([\\W\\d])\\u0433\\.", flags=re.I | re.U)', 'RE_SANITIZE_RUSSIAN = re.compile(r"([ \\d])\\u0433\\.", flags=re.I | re.U)')], "silent",
+      note="seeded change C18-2: harmless once whitespace is canonical before the pattern runs"),
+    V("twin-join-split-canonicaliser", "C18", [(DATE, "    date_string = RE_NBSP.sub(\" \", date_string)\n    date_string = RE_SPACES.sub(\" \", date_string)\n    date_string = RE_TRIM_SPACES.sub(r\"\\1\", date_string)\n    return date_string\n",
+                                               "    date_string = \" \".join(date_string.split())\n    return date_string\n")], "silent"),
     V("twin-digit-class-spelled-differently", "C18", [(DATE, 'RE_SANITIZE_PERIOD = re.compile(r"(?<=[^\\d\\s])\\.", flags=re.U)', 'RE_SANITIZE_PERIOD = re.compile(r"(?<![\\d\\s])(?<=.)\\.", flags=re.U)')], "silent"),
     )
 
